@@ -83,9 +83,17 @@ except Exception:  # before the table was generated
     COMPAT = {"examples": {}, "blocks": {}, "slow": []}
 
 
-def ex_for_db(db, slow):
+COLUMN_RE = re.compile(r"(?im)^\s*(TRANSPORT|ADVECTION|RUN_CELLS)\b")
+
+
+def ex_for_db(db, slow, loaded=False):
     out = [e for e, dbs in sorted(COMPAT["examples"].items()) if db in dbs and ((e in COMPAT["slow"]) == slow)]
-    return [e for e in out if excluded_history_text(T.example_text(e)) is None]
+    out = [e for e in out if excluded_history_text(T.example_text(e)) is None]
+    if loaded:
+        # same rule as for generated blocks: no column calculation on cells that hold what an earlier run of the session left behind
+        # (ex4 followed by ex21 on one instance crashes the pinned tree, without any load involved; reported for C08)
+        out = [e for e in out if not COLUMN_RE.search(T.example_text(e))]
+    return out
 
 
 # =============================================================================== generated option-changing inputs
@@ -439,8 +447,8 @@ def setter_step(draw):
 def run_step(draw, db, tier, slow_ok=True, loaded=False):
     how = draw(st.sampled_from(["string", "string", "string", "file", "acc"]))
     k = draw(st.integers(0, 9))
-    fast = ex_for_db(db, False)
-    slow = ex_for_db(db, True)
+    fast = ex_for_db(db, False, loaded)
+    slow = ex_for_db(db, True, loaded)
     if k <= 2 and fast:
         return {"op": "run", "src": "ex:" + draw(st.sampled_from(fast)), "how": how, "tags": ["example"]}
     # examples that take > 0.12 s (and can leave kinetic reactants that make later runs of the history slow): thorough tier only
@@ -507,11 +515,14 @@ def post_steps(draw, db, hist_tags):
     tag_order = list(draw(st.permutations(rel_tags))) if rel_tags else []
     n = draw(st.integers(1, 6))
     chosen = []
+    loaded = False  # a generated follow-up left kinetic/surface/gas entities or deleted something: no column probes afterwards
     for i in range(n):
         k = draw(st.integers(0, 9))
         if k == 0:
-            g = draw(gen_input(db, 1, history=False))
+            g = draw(gen_input(db, 1, history=False, loaded=loaded))
             post.append({"op": "run", "text": g["text"], "how": draw(st.sampled_from(["string", "file", "acc"])), "tags": g["tags"]})
+            if set(g["blocks"]) & (set(LOADING) | {"delete"}):
+                loaded = True
             continue
         if k == 1:
             post.append({"op": "runacc"})
@@ -521,6 +532,9 @@ def post_steps(draw, db, hist_tags):
         else:
             p = draw(st.sampled_from(T.PROBE_NAMES))
         if p in chosen or (p == "inverse" and db in NO_ALK):
+            continue
+        if loaded and (p.startswith(("transport_", "advection_")) or p in ("leftover_cells", "mix_copy")):
+            # RUN_CELLS / column probes on cells that hold a surface but no solution crash the pinned tree on a brand-new instance too
             continue
         chosen.append(p)
         post.append({"op": "run", "src": "probe:" + p, "how": draw(st.sampled_from(["string", "string", "string", "file", "acc"]))})
@@ -555,8 +569,30 @@ def case_strategy(draw, tier="quick"):
                 loaded = True
         else:
             hist.append(setter_step(draw))
+    # Sink-toggle pattern: string sinks switched on, a run that fills them (output, log, dump, selected output), sinks switched off
+    # again, then the load happens while they are off; the follow-ups switch them back on / read the line views.
+    toggled = False
+    if db is not None and db != "minimum.dat" and draw(st.integers(0, 3)) == 0:
+        toggled = True
+        sinks = draw(st.lists(st.sampled_from(["DumpStringOn", "DumpStringOn", "OutputStringOn", "LogStringOn", "ErrorStringOn", "sel"]),
+                              min_size=1, max_size=4, unique=True))
+        for g in sinks:
+            if g == "sel":
+                hist.append({"op": "cur", "n": draw(st.sampled_from([1, 2]))})
+                hist.append({"op": "seti", "fn": "SetSelectedOutputStringOn", "v": 1})
+            else:
+                hist.append({"op": "seti", "fn": "Set" + g, "v": 1})
+        pre = draw(gen_input(db, 1, loaded=loaded))["text"] if draw(st.booleans()) else ""
+        fill = ("SOLUTION 1\n pH 7\n Na 1\n Cl 1\nKNOBS\n -logfile true\nSELECTED_OUTPUT %d\n -totals Na\nDUMP\n -solution 1\n%sEND\n"
+                % (draw(st.sampled_from([1, 2])), draw(st.sampled_from(["", " -append true\n"]))))
+        hist.append({"op": "run", "text": pre + fill, "how": draw(st.sampled_from(["string", "file", "acc"])), "tags": ["sinks", "dump"]})
+        for g in draw(st.lists(st.sampled_from(sinks), min_size=1, max_size=len(sinks), unique=True)):
+            if g == "sel":
+                hist.append({"op": "seti", "fn": "SetSelectedOutputStringOn", "v": 0})
+            else:
+                hist.append({"op": "seti", "fn": "Set" + g, "v": 0})
     fail = None
-    if draw(st.integers(0, 2)) > 0:
+    if not toggled and draw(st.integers(0, 2)) > 0:
         fail = fail_step(draw, db, loaded) if db is not None else {"op": "run", "text": "SOLUTION 1\nEND\n", "how": "string", "tags": ["fail"], "fail": "no_database"}
     final = load_step(draw, draw(st.sampled_from(DB_WEIGHTED + ["phreeqc.dat"] * 12 + ["pitzer.dat"] * 3)))
     tags = sorted({t for s in hist + ([fail] if fail else []) for t in s.get("tags", [])})
@@ -572,6 +608,13 @@ def mask_text(s, iid):
     if s is None:
         return None
     s = BANNER.sub("<END-OF-RUN>\n", s)
+    return mask_name(s, iid)
+
+
+def mask_line(s, iid):
+    """one line of a line view: the elapsed-time banner line and all-dash lines (the banner's underline has a run-dependent length)"""
+    if re.fullmatch(r"-+", s or "") or (s or "").startswith("End of Run after "):
+        return "<banner>"
     return mask_name(s, iid)
 
 
@@ -661,6 +704,11 @@ def snapshot(I, wd, rc, calls0=0):
     o["warning_string"] = mask_text(I.warnings(), iid)
     o["line_counts"] = [I.geti(g) for g in ("GetOutputStringLineCount", "GetLogStringLineCount", "GetDumpStringLineCount",
                                             "GetErrorStringLineCount", "GetWarningStringLineCount")]
+    views = {}
+    for name, cnt in zip(("Output", "Log", "Dump", "Error", "Warning"), o["line_counts"]):
+        g = "Get%sStringLine" % name
+        views[name] = [mask_line(I.gets(g, 0), iid), mask_line(I.gets(g, max(cnt - 1, 0)), iid), mask_line(I.gets(g, cnt // 2), iid)]
+    o["line_views"] = views
     o["components"] = I.components()
     cur = I.geti("GetCurrentSelectedOutputUserNumber")
     o["selected_output_state"] = {"count": I.geti("GetSelectedOutputCount"), "numbers": I.user_numbers(), "current": cur}
@@ -698,7 +746,7 @@ def clean_dir(wd):
 
 
 ORDER = ["return_code", "callback_calls", "error_string", "warning_string", "selected_output_state", "components", "surviving_switches",
-         "surviving_names", "dump_string", "log_string", "output_string", "line_counts", "files"]
+         "surviving_names", "dump_string", "log_string", "output_string", "line_counts", "line_views", "files"]
 
 
 def first_diff(a, b):
